@@ -990,6 +990,31 @@ func wcBody(env *simrt.Env, check string) {
 				}
 			}
 		}
+		// A request that reported an error (an I/O failure of a side file) and changed the writing state all the
+		// same: the clients learn the writing state from the WRITING messages, so the last one must state it
+		// (the statement: "the writing state reported to clients ... agrees with behaviour").
+		if err != nil && !sameState(prev, now) {
+			m, found := w.sk.lastMsg("WRITING")
+			told := false
+			if found {
+				if pp, isPP := m.state.(**WritingState); isPP && *pp != nil {
+					told = sameState(*pp, now)
+				}
+			}
+			if !told {
+				kind := strings.Fields(req + " ?")[0]
+				simrt.Fail("C06.status-message", "wc:state-changed-by-failed-request-without-status:"+kind, "%s answered %s and changed the writing state from %s to %s, but no WRITING message tells the clients: the last one they have %s", req, errText, stateString(prev), stateString(now),
+					func() string {
+						if !found {
+							return "is none at all"
+						}
+						if pp, isPP := m.state.(**WritingState); isPP && *pp != nil {
+							return "says " + stateString(*pp)
+						}
+						return "is unreadable"
+					}())
+			}
+		}
 		sessionBookkeeping(prev, now, lo, hi)
 		if strings.HasPrefix(req, "PAUSE") && !prev.Active {
 			simrt.Hit("pause-before-start")
